@@ -416,6 +416,27 @@ pub fn builtins(level: u8, which: &str, f: &mut dyn FnMut(Case)) {
     }
 }
 
+/// C14: long atoms with long common prefixes, long digit strings.
+pub fn cmp(_level: u8, f: &mut dyn FnMut(Case)) {
+    for n in [3usize, 7, 8, 9, 15, 16, 17, 31, 32, 33, 63, 64, 65, 128, 129] {
+        let stem = "ab".repeat(n);
+        let pairs: Vec<(T, T)> = vec![
+            (atom(&stem), atom(&format!("{}c", stem))),
+            (atom(&format!("{}c", stem)), atom(&stem)),
+            (atom(&format!("{}c", stem)), atom(&format!("{}d", stem))),
+            (atom(&stem), atom(&stem)),
+            (atom(&format!("{}é", stem)), atom(&format!("{}z", stem))),
+            (T::Int(10i64.pow(n.min(18) as u32) - 1), T::Int(10i64.pow(n.min(18) as u32) - 2)),
+            (T::Float(0.1 * n as f64), T::Int(n as i64 / 10)),
+        ];
+        for (x, y) in pairs {
+            for rel in Rel::ALL {
+                f(Case { family: "cmp@scale", prog: vec![rule("p", vec![atom("ok"), v("$U")], G::And(vec![G::Unify(v("$A"), x.clone()), G::Cmp(rel, v("$A"), y.clone())]))], queries: vec![cplx("p", vec![v("$Z"), v("$W")])] });
+            }
+        }
+    }
+}
+
 /// C08: long alias chains closed from either end, through rule heads.
 pub fn alias(level: u8, f: &mut dyn FnMut(Case)) {
     let fam = "scale";
